@@ -654,12 +654,13 @@ fn judge_reject_head(spec: &StatusSpec, md: &Grouped, md_independent: bool, code
         return Some(format!("HTTP status {}", code));
     }
     let wire = group_hm(h);
-    let user_details = md.contains_key("grpc-status-details-bin");
-    // expected names
+    // expected names.  grpc-status-details-bin is the protocol's on this path: the status's own
+    // details or, without details, NO such header - a user entry of that name in the status
+    // metadata never reaches the wire (F-C04e / F-C12a, fixed by ed827503)
     let mut want: BTreeMap<String, Option<Vec<Vec<u8>>>> = BTreeMap::new(); // None = judged by decoding
     want.insert("content-type".into(), Some(vec![b"application/grpc".to_vec()]));
     for (k, vs) in md {
-        if !is_reserved(k) {
+        if !is_reserved(k) && k.as_str() != "grpc-status-details-bin" {
             want.insert(k.clone(), Some(vs.clone()));
         }
     }
@@ -711,15 +712,10 @@ fn judge_reject_head(spec: &StatusSpec, md: &Grouped, md_independent: bool, code
     if back.message() != spec.msg {
         return Some("message changed".into());
     }
-    if user_details && spec.details.is_empty() {
-        // SWITCH (documented in checks/C12.json, audit M1/M15): the status metadata holds a user entry
-        // under the protocol name grpc-status-details-bin and the status has no details; tonic's reader
-        // takes the user's entry for the details.  Outside the premise of c12_reject_status_recovered;
-        // the wire clauses above and code / message are judged, details and recovered metadata are not.
-        return None;
-    }
+    // the details are the interceptor's status's own in ALL cases (no switch: a user entry named
+    // grpc-status-details-bin in the status metadata is only excused from being delivered itself)
     if back.details() != &spec.details[..] {
-        return Some("details changed".into());
+        return Some("details changed: the caller does not recover the details of the interceptor's status".into());
     }
     let bm = group_hm(&back.metadata().clone().into_headers());
     let mut want_md: Grouped = md.iter().filter(|(k, _)| !is_reserved(k) && k.as_str() != "grpc-status-details-bin").map(|(k, v)| (k.clone(), v.clone())).collect();
@@ -751,7 +747,6 @@ fn build_hreq(rq: &Req) -> http::Request<Vec<u8>> {
     }
     hreq
 }
-const REPOLL_PANIC: &str = "called `Option::unwrap()` on a `None` value";
 
 fn run_seq(out: &mut Out, kind: &str, acts: Vec<Action>, cfg: Cfg, ops: Vec<SOp>, via_layer: bool) {
     let log = Arc::new(Mutex::new(vec![]));
@@ -864,8 +859,9 @@ fn run_seq(out: &mut Out, kind: &str, acts: Vec<Action>, cfg: Cfg, ops: Vec<SOp>
                     match r {
                         Err(p) => {
                             trace.push(Tr::L(vec![Tr::n(99u8)]));
-                            if act.reject.is_some() && i >= 1 && p.contains(REPOLL_PANIC) {
-                                // a spent future may panic when polled again
+                            if act.reject.is_some() && i >= 1 {
+                                // a spent future may panic when polled again (the Future contract leaves a
+                                // poll after completion open; the text of that panic is nobody's business)
                             } else {
                                 fail(&mut why, format!("poll {} of the response future panicked: {}", i, p));
                             }
@@ -1131,7 +1127,7 @@ fn run_cap(out: &mut Out, n: usize, code: u32, msg: &str, details: &[u8], polls:
             Err(p) => {
                 trace.push(Tr::L(vec![Tr::n(99u8)]));
                 // over the capacity of http::HeaderMap the panic is the documented outcome (checks/C12.json)
-                if (i == 0 && fits) || (i == 0 && !p.contains("MAX_SIZE")) || (i > 0 && fits && !p.contains(REPOLL_PANIC)) {
+                if (i == 0 && fits) || (i == 0 && !p.contains("MAX_SIZE")) || false {
                     why = Some(format!("poll {} panicked: {}", i, p));
                 }
             }
@@ -1361,9 +1357,10 @@ fn main() {
         reject_with(16, "no", &[], MdSpec::Ops(vec![])),
         reject_with(7, "denied: 100% \"é\"\n", &[0, 255, 7, 9], MdSpec::Ops(vec![op(1, "x-why", b"acl"), op(1, "te", b"forged"), op(1, "content-type", b"text/html"), op(1, "grpc-status", b"0"), op(3, "x-d-bin", b"\x00\x01"), op(1, "x-why", b"2")])),
         reject_with(0, "", &[1], MdSpec::Ops(vec![op(3, "grpc-status-details-bin", b"user")])),
-        // outside the premise of c12_reject_status_recovered: empty details and a user entry under
-        // grpc-status-details-bin (wire clauses judged; the model is tied on it)
+        // the witness of F-C04e / F-C12a (fixed by ed827503): empty details and a user entry under
+        // grpc-status-details-bin - judged in full: no such header on the wire, NO details recovered
         reject_with(7, "no", &[], MdSpec::Ops(vec![op(2, "grpc-status-details-bin", b"user")])),
+        reject_with(7, "", &[], MdSpec::Raw(vec![("grpc-status-details-bin".into(), b"user".to_vec()), ("grpc-status-details-bin".into(), b"!!".to_vec()), ("x-keep".into(), b"1".to_vec())])),
         reject_with(3, "raw md", &[9, 8, 7, 6, 5], MdSpec::Raw(vec![("x-why".into(), b"acl".to_vec()), ("te".into(), b"forged".to_vec()), ("x-d-bin".into(), b"AAE".to_vec()), ("x-why".into(), b"2".to_vec()), ("grpc-message".into(), b"forged".to_vec()), ("user-agent".into(), b"ua".to_vec()), ("grpc-message-type".into(), b"t".to_vec()), ("x-obs".into(), vec![0xe9, b' ', b'x'])])),
     ];
     for (i, act) in acts.iter().enumerate() {
@@ -1434,10 +1431,9 @@ fn main() {
         "accept / reject / seq: the real InterceptedService (built directly and through InterceptorLayer) over a recording inner tower service with a scripted poll_ready, a scripted inner future (0-3 Pendings) and a scripted inner response body whose frames (data / trailers / error / Pending), is_end_stream and size_hint are arbitrary per step; every case is a sequence of poll_ready / call on ONE service with an FnMut interceptor (call counter choosing the action): accept / reject = [poll_ready, call], seq = 2-6 uses, 1-3 actions; the response future is polled a scripted number of times (rejected calls also past completion), the response body is used through a scripted interleaving of poll_frame / is_end_stream / size_hint incl. past its end. Requests over 11 methods x 10 URI shapes x 5 HTTP versions with header maps holding reserved, repeated and (padded / unpadded) binary entries, two extension types and a body; interceptor actions identity / insert / append / remove (+_bin, also aimed at reserved names and at entries of the wrong kind) / replace everything / change extensions / reject with a random status (17 codes x hostile messages x details of every length mod 3 x metadata incl. reserved names, built through the typed API or given as raw header entries); inner answers incl. non-200 and Err. corpus.cap: rejecting statuses with 3 .. 24575 metadata names around http::HeaderMap's capacity. Non-trivial = a request has headers, or an action mutates or rejects. Distinct = distinct (kind, model expression).",
         json!({
             "oracle_switches": [
-                "reject, status metadata holds a user entry named grpc-status-details-bin AND the status has no details (outside the premise of c12_reject_status_recovered, audit M1/M15): wire clauses, code and message are judged; recovered details / metadata are not (premise of c12_reject_status_recovered)",
                 "corpus.cap over 24576 header names: the panic of http::HeaderMap is the modelled, documented outcome; judged: inner service not invoked, the panic is the capacity one"
             ],
-            "independent_of_tonic_in_the_reject_oracle": "grpc-status (decimal), grpc-message (own percent decoder), grpc-status-details-bin (own base64 decoder), header-name set; for raw-entry statuses also the expected metadata"
+            "independent_of_tonic_in_the_reject_oracle": "grpc-status (decimal), grpc-message (own percent decoder), grpc-status-details-bin (own base64 decoder; absent for a status without details whatever its metadata holds under that name - F-C04e, strict), header-name set; for raw-entry statuses also the expected metadata"
         }),
     );
 }
